@@ -280,7 +280,7 @@ def load_known():
         for line in open(KNOWN):
             s = line.strip()
             if s.startswith("finding:"):
-                d = dict(re.findall(r'(\w+)=("(?:[^"]*)"|\S+)', s))
+                d = dict(re.findall(r'(\w+)=("(?:[^"\\]|\\.)*"|\S+)', s))
                 d["_line"] = s
                 findings.append(d)
             elif s.startswith("fixed:"):
@@ -395,7 +395,9 @@ def cmd_check(pid, tier):
     stale = []
     for kf in my_findings:
         if any(kf is h for h, _ in known_hits):
-            print("KNOWN-FINDING: property=%s %s" % (pid, kf["_line"][len("finding:"):].strip()))
+            rest = kf["_line"][len("finding:"):].strip()
+            rest = re.sub(r"^property=\S+\s*", "", rest)
+            print("KNOWN-FINDING: property=%s %s" % (pid, rest))
         else:
             stale.append(kf["_line"])
     replay_path = None
@@ -436,7 +438,14 @@ def cmd_check(pid, tier):
             print("vx: UNDECIDED %s: %s" % (r.get("unit"), r.get("reason")), file=sys.stderr)
         rc = 2
     # ---- evidence
-    obligations = sum(r.get("verified", 0) + r.get("errors", 0) for r in results.values())
+    # an audit copy that fails exactly its listed clause is a recorded finding, not an obligation of the claim
+    audit_known = set()
+    for u in units:
+        for f in results[u]["failures"]:
+            rg = f["region"]
+            if rg is not None and rg.opts.get("audit") and any(kf.get("obligation", "").strip('"') == f["label"] for kf in findings):
+                audit_known.add((u, rg.id))
+    obligations = sum(r.get("verified", 0) + r.get("errors", 0) for r in results.values()) - len(audit_known)
     discharged = sum(r.get("verified", 0) for r in results.values())
     trusted = []
     fn_list = []
@@ -478,6 +487,7 @@ def cmd_check(pid, tier):
             "normalisation_counts": norm_total,
             "vacuity": {"canary_functions": canary_total, "canaries_failed_as_required": canary_ok, "messages": guard_msgs},
             "known_findings_reported": [h["_line"] for h, _ in known_hits],
+            "audit_copies_failing_as_recorded": sorted("%s/%s" % x for x in audit_known),
             "stale_known_findings": stale,
             "fixed_entries": [s for s in fixed if ("property=" + pid) in s],
             "failures_of_other_properties_in_shared_units": [f["label"] for f in foreign],
